@@ -181,7 +181,10 @@ func vfRecord(prop, test string, caseJSON []byte, res *vfResult) {
 	a := vfAggFor(prop, test)
 	a.Evaluations++
 	if res.Inconclusive != "" {
-		a.Inconclusive[res.Inconclusive]++
+		a.Inconclusive[vfInconclusiveKey(res.Inconclusive)]++
+		if d := os.Getenv("VF_DEBUG_INCONCLUSIVE"); d != "" {
+			_ = os.WriteFile(filepath.Join(d, fmt.Sprintf("inconclusive-%x.json", vfHash(caseJSON))), caseJSON, 0o644)
+		}
 		return
 	}
 	for _, l := range res.Labels {
@@ -450,6 +453,38 @@ func vfBubble(t *testing.T, f func()) (panicMsg string) {
 		f()
 	})
 	return inner
+}
+
+// vfInconclusiveKey shortens a reason to a stable key: first line, digits and addresses removed; for a bubble that did
+// not drain, the function the first remaining goroutine sits in.
+func vfInconclusiveKey(r string) string {
+	if strings.Contains(r, "deadlock: main bubble goroutine has exited") {
+		for _, line := range strings.Split(r, "\n") {
+			line = strings.TrimSpace(line)
+			if strings.HasPrefix(line, "github.com/") || strings.HasPrefix(line, "internal/") || strings.HasPrefix(line, "sync.") || strings.HasPrefix(line, "time.") {
+				if i := strings.IndexByte(line, '('); i > 0 {
+					if j := strings.LastIndexByte(line, '('); j > i {
+						line = line[:j]
+					}
+				}
+				return "bubble did not drain: " + line
+			}
+		}
+		return "bubble did not drain"
+	}
+	first := strings.SplitN(r, "\n", 2)[0]
+	var b strings.Builder
+	for _, ch := range first {
+		if ch >= '0' && ch <= '9' {
+			ch = '#'
+		}
+		b.WriteRune(ch)
+	}
+	k := b.String()
+	if len(k) > 160 {
+		k = k[:160]
+	}
+	return k
 }
 
 func vfStallSeconds() int {
